@@ -307,6 +307,7 @@ fn dense_one<const LA: usize, const LB: usize, const OP: u8>() {
     };
     crate::cover!(LA == LB && LA > 1 && r.coeffs.len() < LA && !a.is_zero());
     crate::cover!(!r.is_zero());
+    crate::cover!((LA == 0 || LB == 0) && r.is_zero()); // zero-operand instances: the result may be identically zero
     let ok = dense_canon(&r) && dense_eval(&r, x) == want;
     core::mem::forget((a, b, r));
     assert!(ok);
